@@ -65,6 +65,12 @@ func (e *Enc) callCommon(c *ssa.CallCommon, pos token.Pos, hint string, rt types
 		args[idx] = e.unboxed(args[idx], inner)
 	}
 	if ct == nil {
+		if len(callee.Blocks) > 0 && callee.Pkg != nil && strings.HasPrefix(callee.Pkg.Pkg.Path(), rootPath) {
+			return e.inlineCall(callee, args, pos)
+		}
+		if o := callee.Origin(); len(callee.Blocks) > 0 && o != nil && o.Pkg != nil && strings.HasPrefix(o.Pkg.Pkg.Path(), rootPath) {
+			return e.inlineCall(callee, args, pos)
+		}
 		panic(unsupported("call to " + key + " which has no contract"))
 	}
 	if ct.Assumed {
